@@ -760,7 +760,11 @@ class ProcProxy:
         # run the actual function
         try:
             alias_env = {}
-            with XSH.env.swap(self.env, overlay=alias_env):
+            with (
+                xt.redirect_stdout(stdout),
+                xt.redirect_stderr(stderr),
+                XSH.env.swap(self.env, overlay=alias_env),
+            ):
                 r = run_with_partial_args(
                     self.f,
                     {
